@@ -638,8 +638,21 @@ fn shape_name(s: Shape) -> R<&'static str> {
         _ => Err("source shape".into()),
     }
 }
+/// rows 0..n-1 of the compact source form ["range", shape, n]: "u": Int i; "kv": (i mod 7, i)
+pub fn range_rows(shape: Shape, n: usize) -> Vec<Val> {
+    (0..n as i64)
+        .map(|i| if shape == Shape::KV { pair(Val::Int(i % 7), Val::Int(i)) } else { Val::Int(i) })
+        .collect()
+}
+pub fn range_src(shape: Shape, n: usize) -> Src {
+    Src::Vec(shape, range_rows(shape, n))
+}
 pub fn src_json(s: &Src) -> Value {
     match s {
+        // long canonical ranges are printed in the compact form (Decode.v expands it identically)
+        Src::Vec(sh @ (Shape::U | Shape::KV), d) if d.len() >= 1000 && *d == range_rows(*sh, d.len()) => {
+            json!(["range", shape_name(*sh).unwrap(), d.len()])
+        }
         Src::Vec(sh, d) => json!(["vec", shape_name(*sh).unwrap(), vals_json(d)]),
         Src::Sharded(sh, shards, total) => json!([
             "sharded",
@@ -658,6 +671,13 @@ pub fn parse_src(j: &Value) -> R<Src> {
     };
     let src = match tag_of(j) {
         Some(("vec", [s, d])) => Src::Vec(shape(s)?, parse_vals(d)?),
+        Some(("range", [s, n])) => {
+            let shp = shape(s)?;
+            if shp == Shape::KG {
+                return bad("range source shape", s);
+            }
+            range_src(shp, nat(n)?)
+        }
         Some(("sharded", [s, sh, n])) => {
             let sh = match sh.as_array() {
                 Some(a) => a.iter().map(parse_vals).collect::<R<Vec<_>>>()?,
@@ -1586,6 +1606,62 @@ pub fn run_prog_case(input: &Value, dir: &str) -> Value {
         Err(_) => json!(["invalid"]),
     }
 }
+// ---- compact observations for big results (mirrors Canon.summary)
+const HP: i64 = 1_000_000_007;
+pub fn vhash(v: &Val) -> i64 {
+    match v {
+        Val::Int(z) => (z * 7 + 1).rem_euclid(HP),
+        Val::Pair(a, b) => (vhash(a) * 31 + vhash(b) * 17 + 3) % HP,
+        Val::List(l) => l.iter().fold(5i64, |acc, x| (acc * 131 + vhash(x)) % HP),
+        Val::None => 11,
+        Val::Some(x) => (vhash(x) * 13 + 2) % HP,
+    }
+}
+pub fn leaves(v: &Val) -> i64 {
+    match v {
+        Val::Int(_) => 1,
+        Val::Pair(a, b) => leaves(a) + leaves(b),
+        Val::List(l) => l.iter().map(leaves).sum(),
+        Val::None => 0,
+        Val::Some(x) => leaves(x),
+    }
+}
+/// [count, sum of ikey, min ikey, max ikey (0 when empty), number of integer leaves,
+///  order-free hash (sum of row hashes), order-sensitive hash]
+pub fn summary(rows: &[Val]) -> Vec<i64> {
+    let keys: Vec<i64> = rows.iter().map(ikey).collect();
+    vec![
+        rows.len() as i64,
+        keys.iter().sum(),
+        keys.iter().min().copied().unwrap_or(0),
+        keys.iter().max().copied().unwrap_or(0),
+        rows.iter().map(leaves).sum(),
+        rows.iter().fold(0i64, |a, r| (a + vhash(r)) % HP),
+        rows.iter().fold(0i64, |a, r| (a * 1_000_003 + vhash(r)) % HP),
+    ]
+}
+/// replace the rows of an ["ok", rows] outcome by their summary
+pub fn summarise(out: Value) -> Value {
+    match out.as_array() {
+        Some(a) if a.len() == 2 && a[0] == json!("ok") => match parse_vals(&a[1]) {
+            Ok(rows) => json!(["ok", summary(&rows)]),
+            Err(_) => json!(["invalid"]),
+        },
+        _ => out,
+    }
+}
+/// kind "bigprog": as "prog", the observed rows replaced by `summary`
+pub fn run_bigprog_case(input: &Value, dir: &str) -> Value {
+    summarise(run_prog_case(input, dir))
+}
+/// kind "bigpair": as "pair", both observations summarised
+pub fn run_bigpair_case(input: &Value, dir: &str) -> Value {
+    match run_pair_case(input, dir).as_array() {
+        Some(a) if a.len() == 2 && a[0].is_array() => json!([summarise(a[0].clone()), summarise(a[1].clone())]),
+        _ => json!(["invalid"]),
+    }
+}
+
 /// kind "pair": in = [src, steps, partitions] -> [seq outcome, par outcome]
 pub fn run_pair_case(input: &Value, dir: &str) -> Value {
     let parsed = (|| -> R<(Src, Vec<Step>, usize)> {
@@ -2898,4 +2974,126 @@ pub fn long_chains(full: bool) -> Vec<Vec<Step>> {
                 .collect()
         })
         .collect()
+}
+
+// ------------------------------------------------------------------ big inputs
+
+/// (n, partitions) around the 65 536-row threshold
+pub fn big_grid(full: bool) -> Vec<(usize, usize)> {
+    if full {
+        let mut v = vec![];
+        for n in [65_535usize, 65_536, 65_537, 70_001] {
+            for p in [2usize, 3, 7, 16] {
+                v.push((n, p));
+            }
+        }
+        v
+    } else {
+        vec![(70_001, 16), (65_536, 3), (65_537, 7), (65_535, 2), (70_001, 3)]
+    }
+}
+pub fn big_chain() -> Vec<Step> {
+    vec![Step::Map(EFun::Add(1)), Step::Filter(PFun::ModEq(3, 1)), Step::Map(EFun::Mod(1000))]
+}
+/// small-output programs over big ranges (plain "prog" / "pair" kinds): (source, steps, mode)
+pub fn big_combine_cases(full: bool) -> Vec<(Src, Vec<Step>, Mode)> {
+    let mut out = vec![];
+    for (i, (n, p)) in big_grid(full).into_iter().enumerate() {
+        out.push((range_src(Shape::KV, n), vec![Step::CombineValues(Cid::Sum)], Mode::Par(p)));
+        let variants: Vec<(Cid, bool, Option<usize>)> = if full {
+            let mut v = vec![];
+            for c in [Cid::Sum, Cid::Count] {
+                for l in [false, true] {
+                    for f in [None, Some(2)] {
+                        v.push((c.clone(), l, f));
+                    }
+                }
+            }
+            v
+        } else {
+            vec![([Cid::Sum, Cid::Count][i % 2].clone(), i % 2 == 0, [None, Some(2)][(i / 2) % 2]),
+                 ([Cid::Count, Cid::Sum][i % 2].clone(), i % 2 == 1, [Some(2), None][(i / 2) % 2])]
+        };
+        for (c, l, f) in variants {
+            out.push((range_src(Shape::U, n), vec![Step::CombineGlobally(c, l, f)], Mode::Par(p)));
+        }
+    }
+    // one partition holding more than 4096 rows (not a multiple of 4096): the lifted local pass
+    for n in [4095usize, 4096, 4097, 10_001] {
+        for mode in [Mode::Seq, Mode::Par(1), Mode::Par(2)] {
+            for (c, l) in [(Cid::Sum, true), (Cid::Count, true), (Cid::Sum, false)] {
+                if !full && !l && mode != Mode::Seq {
+                    continue;
+                }
+                out.push((range_src(Shape::U, n), vec![Step::CombineGlobally(c, l, None)], mode));
+            }
+        }
+    }
+    out
+}
+/// groups / partitions of 127, 128, 129, 300, 1000 values through the LIFTED locals: hand-built
+/// grouped input, group_by_key + a stateless step + combine_values_lifted (no planner lift), and
+/// combine_globally_lifted; Sum / Count / Min / TopK; the minimum sits in the middle of the group
+pub fn big_group_cases(full: bool) -> Vec<(Src, Vec<Step>, Mode)> {
+    let mut out = vec![];
+    let cids = [Cid::Sum, Cid::Count, Cid::Min, Cid::TopK(3)];
+    for (gi, g) in [127usize, 128, 129, 300, 1000].into_iter().enumerate() {
+        let vals: Vec<Val> = (0..g as i64).map(|i| Val::Int((i - g as i64 / 2).abs() + 1 + (i % 3))).collect();
+        let grouped = Src::Vec(Shape::KG, vec![
+            pair(Val::Int(0), Val::List(vals.clone())),
+            pair(Val::Int(1), Val::List(vals.iter().rev().cloned().collect())),
+            pair(Val::Int(0), Val::List(vals[..g / 3].to_vec())),
+        ]);
+        for (ci, c) in cids.iter().enumerate() {
+            if !full && (ci + gi) % 2 == 1 {
+                continue;
+            }
+            for mode in [Mode::Seq, Mode::Par(2)] {
+                out.push((grouped.clone(), vec![Step::CombineValuesLifted(c.clone())], mode));
+                out.push((Src::Vec(Shape::U, vals.clone()), vec![Step::CombineGlobally(c.clone(), true, None)],
+                          if mode == Mode::Seq { Mode::Seq } else { Mode::Par(1) }));
+            }
+            out.push((range_src(Shape::KV, 7 * g),
+                      vec![Step::GroupByKey, Step::Filter(PFun::True), Step::CombineValuesLifted(c.clone())],
+                      [Mode::Seq, Mode::Par(1), Mode::Par(3)][(ci + gi) % 3]));
+        }
+    }
+    out
+}
+
+/// a big case: (kind, source, steps, mode)
+pub type BigCase = (&'static str, Src, Vec<Step>, Mode);
+/// emit one big case (kinds prog / bigprog / pair / bigpair); big cases are spread through the
+/// stream by the callers so that they land in different judge shards
+pub fn emit_big(em: &mut crate::Emitter, c: &BigCase) {
+    let (kind, src, steps, mode) = c;
+    let tags = case_tags(src, steps, *mode, &["sweep", "big_input"]);
+    let tr: Vec<&str> = tags.iter().map(String::as_str).collect();
+    em.case(kind, case_input(src, steps, *mode), nontrivial(src, steps, *mode, false), &tr);
+}
+/// pops and emits the next big case every `stride` calls
+pub struct Spread {
+    pub items: Vec<BigCase>,
+    pub stride: usize,
+    pub tick: usize,
+}
+impl Spread {
+    pub fn new(mut items: Vec<BigCase>, total: usize) -> Self {
+        items.reverse();
+        let stride = (total / (items.len() + 1)).max(1);
+        Spread { items, stride, tick: 0 }
+    }
+    pub fn step(&mut self, em: &mut crate::Emitter) {
+        self.tick += 1;
+        if self.tick % self.stride == 0 {
+            if let Some(c) = self.items.pop() {
+                emit_big(em, &c);
+            }
+        }
+    }
+    pub fn finish(&mut self, em: &mut crate::Emitter) {
+        while let Some(c) = self.items.pop() {
+            emit_big(em, &c);
+        }
+    }
 }
